@@ -130,4 +130,37 @@ Proof. exact EquivClient.titan_send_request_tie. Qed.
 Print Assumptions C13_code_titan_send_request_tie.
 
 
+
+(* ---- tie to the code (client/session.py GeminiClient._get_single, upload): theorems of coq/Equiv/EquivSession.v (statements there), re-checked against the definitions
+   regenerated from /repo's working tree; see DESIGN.md 11.8 ---- *)
+From NV Require Equiv.EquivSession.
+Theorem C13_code_get_single_tie : ltac:(let t := type of @EquivSession.get_single_tie in exact t).
+Proof. exact (@EquivSession.get_single_tie). Qed.
+Print Assumptions C13_code_get_single_tie.
+
+Theorem C13_code_upload_tie : ltac:(let t := type of @EquivSession.upload_tie in exact t).
+Proof. exact (@EquivSession.upload_tie). Qed.
+Print Assumptions C13_code_upload_tie.
+
+Theorem C13_code_get_single_wait : ltac:(let t := type of @EquivSession.get_single_wait in exact t).
+Proof. exact (@EquivSession.get_single_wait). Qed.
+Print Assumptions C13_code_get_single_wait.
+
+Theorem C13_code_upload_wait : ltac:(let t := type of @EquivSession.upload_wait in exact t).
+Proof. exact (@EquivSession.upload_wait). Qed.
+Print Assumptions C13_code_upload_wait.
+
+Theorem C13_code_get_single_connect_failure : ltac:(let t := type of @EquivSession.get_single_connect_failure in exact t).
+Proof. exact (@EquivSession.get_single_connect_failure). Qed.
+Print Assumptions C13_code_get_single_connect_failure.
+
+Theorem C13_code_upload_connect_failure : ltac:(let t := type of @EquivSession.upload_connect_failure in exact t).
+Proof. exact (@EquivSession.upload_connect_failure). Qed.
+Print Assumptions C13_code_upload_connect_failure.
+
+Theorem C13_code_get_single_close_once : ltac:(let t := type of @EquivSession.get_single_close_once in exact t).
+Proof. exact (@EquivSession.get_single_close_once). Qed.
+Print Assumptions C13_code_get_single_close_once.
+
+
 Close Scope N_scope.
